@@ -492,14 +492,14 @@ example : Gen.RsSerialize.serialize_mappings 14 exampleMap =
     Mappings.serializeMappings (exampleMap.tokens.map toTok) exampleMap.names.length :=
   tie_serialize_mappings exampleMap (by decide) (by decide) 14 (by omega) (by decide)
 /-- lines going back: 2, 0 -/
-def unsortedMap : Gen.RsTypes.SourceMap := { tokens := [exTokC, exTokA], names := [] }
+def unsortedMap : Gen.RsTypes.SourceMap := { (default : SmVerif.Gen.RsTypes.SourceMap) with tokens := [exTokC, exTokA], names := [] }
 example : ¬ (unsortedMap.tokens.map (·.dst_line)).Pairwise (· ≤ ·) := by decide
 example : Gen.RsSerialize.serialize_mappings 20 unsortedMap = .error .diverge := by
   rw [tie_serialize_mappings_diverge unsortedMap (by decide) 20 (by omega) (by decide) (by decide)]
   exact serializeMappings_unsorted _ _ (by decide)
 /-- the fuel bound is sharp: a token on line 14 needs 15 iterations of the `while` loop (14 `;` and the exit test) -/
 example : Gen.RsSerialize.serialize_mappings 14
-    { tokens := [{ exTokA with dst_line := 14 }], names := [] } = .error .diverge := by rfl
+    { (default : SmVerif.Gen.RsTypes.SourceMap) with tokens := [{ exTokA with dst_line := 14 }], names := [] } = .error .diverge := by rfl
 
 /-- the overflow panic of `prev_dst_line += 1`, on the loop alone (a whole map reaching it needs 2^32 iterations) -/
 example : Gen.RsSerialize.serialize_mappings.loop2 (tokAt exampleMap 0 exTokA) 10 [] 4294967290 =
